@@ -159,10 +159,21 @@ def safename(name: str) -> str:
     return safe_simple_name(name)
 
 
+UVL_KEYWORDS: frozenset[str] = frozenset({
+    'include', 'namespace', 'imports', 'as', 'features', 'cardinality', 'constraint',
+    'constraints', 'sum', 'avg', 'len', 'floor', 'ceil', 'String', 'Integer', 'Real', 'Boolean',
+    'Arithmetic', 'Type', 'or', 'alternative', 'optional', 'mandatory', 'true', 'false'})
+
+
 def safe_simple_name(name: str) -> str:
     if name.startswith("'") and name.endswith("'"):
         return name
-    return f'"{name}"' if any(char not in safecharacters() for char in name) else name
+    # A bare UVL identifier starts with a letter and is not a keyword of the language;
+    # everything else has to be written as a quoted identifier.
+    unsafe = (any(char not in safecharacters() for char in name)
+              or not name[:1].isalpha()
+              or name in UVL_KEYWORDS)
+    return f'"{name}"' if unsafe else name
 
 
 def safecharacters() -> str:
